@@ -4,6 +4,7 @@ from __future__ import annotations
 import ast
 from typing import Dict, List, Optional, Set
 
+from ..fold import Folder, Unfoldable
 from ..report import Finding, Run
 from ..rx.lang import Lang, difference_witness
 from ..rx.nfa import CharSet, build
@@ -292,7 +293,41 @@ def strict_hex_decoding(model: Model, run: Run, unesc_site, rule: str) -> None:
         if not okd:
             run.fail(Finding(rule, ufi0.qualname, f"{t}|unguarded", f"escape digits are decoded with {t}, which {LENIENT[t]}, without a dominating check that they are exactly two hex digits: "
                              "text that is not an RFC 4515 escape is accepted and does not survive the round trip", model.loc(FILTER, c)))
-    if not decs:
+    # a lookup table in place of a decoder: TABLE.get(<two characters>) / TABLE[...] with TABLE a module-level dict that folds
+    tables = []
+    for c in ast.walk(ufi0.node):
+        nm = None
+        if isinstance(c, ast.Call) and isinstance(c.func, ast.Attribute) and c.func.attr == "get" and isinstance(c.func.value, ast.Name):
+            nm = c.func.value.id
+        elif isinstance(c, ast.Subscript) and isinstance(c.value, ast.Name) and isinstance(c.ctx, ast.Load):
+            nm = c.value.id
+        if nm and model.modules[FILTER].globals_.get(nm):
+            try:
+                tab = Folder(model).fold_global(FILTER, nm)
+            except Unfoldable:
+                continue
+            if isinstance(tab, dict) and tab and all(isinstance(k, (str, bytes)) for k in tab):
+                folded = any(isinstance(x, ast.Call) and isinstance(x.func, ast.Attribute) and x.func.attr in ("lower", "upper", "casefold") for x in ast.walk(c))
+                tables.append((nm, tab, c, folded))
+    for nm, tab, c, folded in tables:
+        def octet(v):
+            return v[0] if isinstance(v, (bytes, bytearray)) and len(v) == 1 else (v if isinstance(v, int) else None)
+        def txt(k):
+            return k.decode("latin-1") if isinstance(k, bytes) else k
+        wrong = [txt(k) for k, v in tab.items() if len(txt(k)) != 2 or not all(ch in "0123456789abcdefABCDEF" for ch in txt(k)) or octet(v) != int(txt(k), 16)]
+        have = {txt(k) for k in tab}
+        need = {f"{i:02x}" for i in range(256)} if folded else {f"{i:02x}" for i in range(256)} | {f"{i:02X}" for i in range(256)}
+        if folded and all(k == k.upper() for k in have):
+            need = {k.upper() for k in need}
+        missing = sorted(need - have)
+        okd = not wrong and not missing
+        run.ob(rule, okd, {"decoder": f"table {nm}", "entries": len(tab), "missing": missing[:4], "wrong": wrong[:4]})
+        if not okd:
+            what = f"has no entry for {missing[:4]}" if missing else f"maps {wrong[:4]} to something that is not the octet the digits denote"
+            run.fail(Finding(rule, ufi0.qualname, f"table {nm}|{'missing ' + ','.join(missing[:4]) if missing else 'wrong ' + ','.join(wrong[:4])}",
+                             f"escape digits are decoded through the table {nm}, which {what}: an RFC 4515 escape the serialiser itself emits is rejected or decoded to another octet",
+                             model.loc(FILTER, c)))
+    if not decs and not tables:
         run.note("no recognised hex decoder in the un-escaper: strict decoding not decided")
 
 
